@@ -142,6 +142,76 @@ def template_core1(u, tdtype, precision):
         return (lo.entered, lm.entered), list(core.NARROW_FLOWS)
     return core.explore(body)
 
+def mia_core(u, tdtype, B, e0, wd):
+    """MIA histogram kernel, every extent symbolic (traces n, samples S, words W, classes K), uniform edges e0 + k*wd (k = 0..B, concrete):
+    accumulators[s,b,c,w]' == accumulators[s,b,c,w] + #{i < n : e_b <= X(i,s) < e_{b+1} (last bin closed on the right) and D(i,w) = c}
+    requires -1 <= D < K and that the uint32 counters cannot overflow with n more traces (a0 + n < 2^32)"""
+    from fractions import Fraction
+    import inspect
+    fnc = L.unwrap(u.mia.MIADistinguisherMixin.__dict__['_accumulate_core']); key = 'scared.distinguishers.mia::MIADistinguisherMixin._accumulate_core'
+    isf = _rnp.dtype(tdtype).kind == 'f'; e0 = Fraction(e0); wd = Fraction(wd)
+    assert all(Fraction(float(e0 + wd * k)) == e0 + wd * k for k in range(B + 1)), 'edges must be exactly representable (the array holds doubles; rounding is outside the model, A1)'
+    rv_ = lambda q: z3.RealVal(str(q))
+    def body():
+        n = core.sym_int('n', 1); S = core.sym_int('S', 1); W = core.sym_int('W', 1); K = core.sym_int('K', 1)
+        X = H.sym_reals('X', (n, S), tdtype) if isf else H.sym_ints('X', (n, S), tdtype)
+        DF = z3.Function('D', z3.IntSort(), z3.IntSort(), z3.IntSort())
+        D = symnp.ndarray.fresh((n, W), lambda i: SBV(z3.Int2BV(DF(zi(i[0]), zi(i[1])), 32), 'int32', DF(zi(i[0]), zi(i[1]))), 'int32', name='D')
+        edges = symnp.from_real(_rnp.array([float(e0 + wd * k) for k in range(B + 1)]))
+        xv = lambda t, s: real_of(X.at(SInt(t), SInt(s))); dv = lambda t, w: DF(t, w)
+        I = z3.IntSort()
+        A0 = z3.Function('ACC0', I, I, I, I, I); PA = z3.Function('PA', I, I, I, I, I, I)      # PA(t, s, b, c, w)
+        nz, Sz, Wz, Kz = n.z, S.z, W.z, K.z
+        def inbin(x, b):      # b: z3 Int in [0, B)
+            lo = rv_(e0) + rv_(wd) * z3.ToReal(b); hi = lo + rv_(wd)
+            return z3.And(x >= lo, z3.Or(x < hi, z3.And(b == B - 1, x == hi)))
+        term = lambda t, s, b, c, w: z3.If(z3.And(inbin(xv(t, s), b), dv(t, w) == c), 1, 0)
+        acc = symnp.ndarray.fresh((S, B, K, W), lambda i: (lambda v: SBV(z3.Int2BV(v, 32), 'uint32', v))(A0(*[zi(k) for k in i])), 'uint32', name='ACC')
+        def mk(valfn): acc.st.set(lambda J: (lambda v: SBV(z3.Int2BV(v, 32), 'uint32', v))(valfn(tuple(zi(j) for j in J))))
+        out_state = lambda k: (lambda J: A0(*J) + z3.If(J[0] < k, PA(nz, *J), 0))
+        mid_state = lambda k, t: (lambda J: A0(*J) + z3.If(J[0] < k, PA(nz, *J), z3.If(J[0] == k, PA(t, *J), 0)))
+        def in_state(k, t, j, bn): return lambda J: mid_state(k, t)(J) + z3.If(z3.And(J[0] == k, J[1] == bn, J[3] < j, dv(t, J[3]) == J[2]), 1, 0)
+        gs, gb, gc, gw = z3.Int('gs!'), z3.Int('gb!'), z3.Int('gc!'), z3.Int('gw!')
+        G = (gs, gb, gc, gw); grange = [gs >= 0, gs < Sz, gb >= 0, gb < B, gc >= 0, gc < Kz, gw >= 0, gw < Wz]
+        def cur():
+            e = acc.at(SInt(gs), SInt(gb), SInt(gc), SInt(gw)); return e.ival if e.ival is not None else z3.BV2Int(e.z)
+        def same(st, what, kind, extra=()): loops.oblige(what, kind, z3.Implies(z3.And(*(grange + list(extra))), cur() == st(G)))
+        ctx = {}
+        def bounds(t, idx):      # facts about the ghost counts at one index: lemma instances (proved below) and the no-overflow precondition
+            return [A0(*idx) >= 0, A0(*idx) + nz <= 2 ** 32 - 1, PA(t, *idx) >= 0, PA(t, *idx) <= t, PA(nz, *idx) >= 0, PA(nz, *idx) <= nz]
+        def o_establish(): same(out_state(z3.IntVal(0)), 'MIA kernel / sample loop: invariant on entry', 'invariant-init')
+        def o_havoc(k): ctx['k'] = zi(k); mk(out_state(zi(k)))
+        def o_preserve(k): same(out_state(zi(k) + 1), 'MIA kernel / sample loop: invariant preserved', 'invariant-step')
+        def m_establish(): same(mid_state(ctx['k'], z3.IntVal(0)), 'MIA kernel / trace loop: invariant on entry', 'invariant-init', extra=[PA(0, *G) == 0])
+        def m_havoc(t): ctx['t'] = zi(t); ctx['bin'] = None; mk(mid_state(ctx['k'], zi(t)))
+        def m_preserve(t):
+            k = ctx['k']; tz = zi(t)
+            unfold = [PA(tz + 1, k, gb, gc, gw) == PA(tz, k, gb, gc, gw) + term(tz, k, gb, gc, gw)]
+            same(mid_state(k, tz + 1), 'MIA kernel / trace loop: invariant preserved (the sample goes to the bin that contains it, or nowhere when outside the edges)', 'invariant-step', extra=unfold)
+        def _bin():
+            fr = [f for f in inspect.stack() if f.function == '_accumulate_core' and 'bin_idx' in f.frame.f_locals]
+            return zi(fr[0].frame.f_locals['bin_idx'])
+        def i_establish():
+            ctx['bin'] = _bin(); same(in_state(ctx['k'], ctx['t'], z3.IntVal(0), ctx['bin']), 'MIA kernel / word loop: invariant on entry', 'invariant-init')
+        def i_havoc(j):
+            jz = zi(j); k, t, bn = ctx['k'], ctx['t'], ctx['bin']; mk(in_state(k, t, jz, bn))
+            d = dv(t, jz); core.assume(z3.And(d >= -1, d < Kz))
+            for f_ in bounds(t, (k, bn, d, jz)): core.assume(z3.Implies(d >= 0, f_))
+        def i_preserve(j): same(in_state(ctx['k'], ctx['t'], zi(j) + 1, ctx['bin']), 'MIA kernel / word loop: invariant preserved (counter of (bin, class of word j, word j) incremented, -1 skipped)', 'invariant-step')
+        lo = loops.LoopCut('mias', lambda it: S, lambda it, k: k, o_establish, o_havoc, o_preserve)
+        lm = loops.LoopCut('miat', lambda it: n, lambda it, k: k, m_establish, m_havoc, m_preserve)
+        li = loops.LoopCut('miaw', lambda it: W, lambda it, k: k, i_establish, i_havoc, i_preserve)
+        L.set_task(loops={key + '#0': lo, key + '#1': lm, key + '#2': li})
+        try: fnc(X, D, edges, acc)
+        finally: L.set_task(loops={})
+        same(lambda J: A0(*J) + PA(nz, *J), 'MIA kernel: accumulators\' == accumulators + number of traces of the class whose sample falls in the bin (n, S, W, K symbolic)', 'post')
+        # the two lemma instances used as facts above: 0 <= PA(t) <= t by induction on t
+        tt = z3.Int('tl!')
+        loops.oblige('MIA kernel lemma: prefix count bounded by the number of traces (base)', 'lemma', z3.Implies(PA(0, *G) == 0, z3.And(PA(0, *G) >= 0, PA(0, *G) <= 0)))
+        loops.oblige('MIA kernel lemma: prefix count bounded by the number of traces (step)', 'lemma', z3.Implies(z3.And(tt >= 0, PA(tt, *G) >= 0, PA(tt, *G) <= tt, PA(tt + 1, *G) == PA(tt, *G) + term(tt, *G)), z3.And(PA(tt + 1, *G) >= 0, PA(tt + 1, *G) <= tt + 1)))
+        return (lo.entered, lm.entered, li.entered), []
+    return core.explore(body)
+
 def ttest_core(u, tdtype, precision):
     mod = u.ld.load(TT); fnc = L.unwrap(mod.TTestThreadAccumulator.__dict__['_update_core']); key = TT + '::TTestThreadAccumulator._update_core'
     isf = _rnp.dtype(tdtype).kind == 'f'
@@ -174,7 +244,7 @@ def report(rep, paths, label, function, timeout, expect_entered, native=None, ca
             rep.obligation('loop-invariant proof[%s]' % label, function, 'post', dict(result='sat', backend='exec', secs=0), sample=repr(exc))
             rep.violation('loop-invariant proof[%s]' % label, function, 'raises %r' % (exc,), case, None, *(native(case) if native else (None, None))); continue
         entered, flows = outc
-        if tuple(entered) != tuple(expect_entered): rep.errors.append('loop contracts of %s entered %s times, expected %s (the loop structure changed: contracts do not apply)' % (label, entered, expect_entered))
+        if tuple(entered) != tuple(expect_entered) and not (callable(expect_entered) and expect_entered(entered)) and not (isinstance(expect_entered, (list, set)) and tuple(entered) in expect_entered): rep.errors.append('loop contracts of %s entered %s times, expected %s (the loop structure changed: contracts do not apply)' % (label, entered, expect_entered))
         for ob in p.obligations:
             res = solve.discharge(ob['pc'], ob['goal'], timeout_ms=timeout)
             nm = '%s [%s]' % (ob['name'], label)
